@@ -6,14 +6,19 @@ From M Require RtInt.
 From M Require RtText.
 From M Require RtBlock.
 From M Require Tie.
+From M Require ArrayRoundTrip.
 From M Require DecSpec.
 From M Require FmtModel.
 From M Require IntFmtProofs.
 From M Require LexBounds.
 From M Require LexModel.
+From M Require ListWs.
 From M Require MoreSpecs.
+From M Require NumList.
+From M Require ParamList.
 From M Require ParserModel.
 From M Require RtBlock.
+From M Require SimpleSpecs.
 From M Require StrTo.
 Import ListNotations.
 
@@ -90,4 +95,16 @@ Theorem C07_tie_base_prefix :
 Proof. exact (@Tie.tie_base_prefix). Qed.
 End T_tie_base_prefix.
 Definition C07_tie_base_prefix := @T_tie_base_prefix.C07_tie_base_prefix.
+
+Module T_rt_uint_array. Import ArrayRoundTrip. Local Open Scope bool_scope. Local Open Scope Z_scope.
+Import LexModel LexBounds DecSpec MoreSpecs NumList SimpleSpecs ListWs ParserModel ParamList. Local Open Scope Z_scope.
+Local Open Scope Z_scope.
+Theorem C07_rt_uint_array :
+  forall vals n c m,
+  vals <> [] -> Forall (fun u => 0 < u < 2 ^ 32) vals ->
+  at_item c (map canon_item vals) 0 -> tail_ok c -> n <> O ->
+  exists c', param_array n (array_reader 14) c m [] = (c', false, firstn n vals).
+Proof. exact (@ArrayRoundTrip.rt_uint_array). Qed.
+End T_rt_uint_array.
+Definition C07_rt_uint_array := @T_rt_uint_array.C07_rt_uint_array.
 
